@@ -12,7 +12,7 @@ CONSTANTS
   Limits = {0, 1, 2}
   RangeSlack = 1
   InvalidateCacheOnReorg = TRUE
-  SnapshotValidated = TRUE
+  SnapshotConsumedOnLoad = TRUE
   DropReopenedWindow = TRUE
 INIT Init
 NEXT Next
